@@ -26,6 +26,9 @@ class MachineryError(Exception):
     """The machinery cannot decide (exit 2); never a silent pass, never a VIOLATION."""
 
 
+FACTS_VERSION = 2      # bump when the driver's output changes: older cached fact files are then ignored
+
+
 def repo_root():
     return os.environ.get('OPW_REPO', '/repo')
 
@@ -66,7 +69,7 @@ def extract(config='full', root=None, quiet=True):
         raise MachineryError('driver not built: run setup (./setup.sh)')
     os.makedirs(os.path.join(CACHE, 'facts'), exist_ok=True)
     th = tree_hash(root)
-    fpath = os.path.join(CACHE, 'facts', '%s.%s.json' % (th, config))
+    fpath = os.path.join(CACHE, 'facts', '%s.%s.v%d.json' % (th, config, FACTS_VERSION))
     info = {'tree_sha256': th, 'config': config, 'repo': root, 'cached': True, 'extract_s': 0.0}
     if not os.path.exists(fpath):
         info['cached'] = False
